@@ -86,12 +86,21 @@ def gen_case(rng, opts=None):
     if rng.random() < 0.5:
         t0 = cfg["types"][0]
         t0["omc"] = "keep_first_value"
+        # the second source also brings an attribute of its own, 'v', that only IT declares secret,
+        # while the first source alone declares the other secret attribute: the secrets of the type
+        # are the union over its sources
+        t0["attrs"].append("v")
+        t0["mapping"]["v"] = ("plain", "c_v")
+        t0["secret"].append("v")
+        cdm["L" + t0["name"]]["attrsmapping"]["l_v"] = "v"
         src2 = []
-        for cur in polls:
+        for pi, cur in enumerate(polls):
             rows = {}
             for k, row in cur[t0["name"]].items():
                 r2 = {a: row[a] for a in t0["pkey"]}
                 r2[t0["secret"][0]] = tok("SEC")
+                # (unchanged in the polls that only touch hidden attributes)
+                r2["v"] = copy.deepcopy(src2[-1][k]["v"]) if (kinds[pi] == "hidden_only" and src2 and k in src2[-1]) else tok("SEC")
                 rows[k] = r2
             src2.append(rows)
     plan = [{"poll": i, "initsync": rng.random() < 0.35, "restart": rng.random() < 0.25} for i in range(npolls)]
@@ -138,9 +147,14 @@ def run_case(case, wd):
     if case.get("src2"):
         s2 = copy.deepcopy(dm[t0["name"]]["sources"]["src"])
         s2["fetch"]["query"] = "q2_" + t0["name"]
-        keep = set(t0["pkey"]) | {t0["secret"][0]}
+        keep = set(t0["pkey"]) | {t0["secret"][0]} | ({"v"} if "v" in t0["attrs"] else set())
         s2["attrsmapping"] = {a: c for a, c in s2["attrsmapping"].items() if a in keep}
         s2["local_attrs"], s2["cacheonly_attrs"] = [], []
+        if "v" in t0["attrs"]:
+            s1 = dm[t0["name"]]["sources"]["src"]
+            s1["attrsmapping"].pop("v", None)
+            s1["secrets_attrs"] = [a for a in s1["secrets_attrs"] if a != "v"]
+            s2["secrets_attrs"] = ["v"]
         dm[t0["name"]]["sources"]["src2"] = s2
     conf = H.server_config(wd + "/srv", dm, ["src", "src2"] if case.get("src2") else ["src"])
 
